@@ -48,6 +48,16 @@ def routes(root):
                             "path": p, "identifier": "VERIF-2D-TRI-01"},
                         2: {"array+meta": (lut_array(2), dict(META)),
                             "path": p2}})
+        # the same tables with the volume as first column
+        vmeta = dict(META, identifier="VERIF-3D-TRI-01", **{
+            "column features": ["volume", "deform", "emodulus"]})
+        pv = lutmod.write_lut(root / "triv.txt", lut_array(),
+                              "VERIF-3D-TRI-01",
+                              features=("volume", "deform"))
+        _ROUTES.update({(1, "volume"): {"array+meta": (lut_array(), vmeta),
+                                        "path": pv},
+                        (2, "volume"): {"array+meta": (lut_array(2),
+                                                       dict(vmeta))}})
     return _ROUTES
 
 
@@ -57,11 +67,13 @@ def _case(job):
     par_ = case["par"]
     wr, qr, vr = par_["wr"], par_["qr"], par_["vr"]
     pts = case["batch"]
-    area = np.array([wr * wr * (20.0 + 10 * p[0]) for p in pts])
+    vol_axis = par_.get("axis") == "volume"
+    area = np.array([wr ** (3 if vol_axis else 2) * (20.0 + 10 * p[0])
+                     for p in pts])
     defo = np.array([0.01 + 0.02 * p[1] for p in pts])
     out = []
     which = par_["lut"]
-    rts = routes(root)[which]
+    rts = routes(root)[(which, "volume") if vol_axis else which]
     name = sorted(rts)[hash(str(case["batch"])) % len(rts)]
     lut_data = rts[name]
     lut_before = lut_array(which)
@@ -73,12 +85,21 @@ def _case(job):
         import warnings
         with warnings.catch_warnings():
             warnings.simplefilter("ignore")
-            got = np.atleast_1d(get_emodulus(deform=defo, area_um=area, **kw))
+            xk = "volume" if vol_axis else "area_um"
+            got = np.atleast_1d(get_emodulus(deform=defo, **{xk: area}, **kw))
             single = [float(np.atleast_1d(get_emodulus(
-                deform=defo[i:i + 1].copy(), area_um=area[i:i + 1].copy(),
+                deform=defo[i:i + 1].copy(), **{xk: area[i:i + 1].copy()},
                 **kw))[0]) for i in range(len(pts))]
-            again = np.atleast_1d(get_emodulus(deform=defo, area_um=area,
+            again = np.atleast_1d(get_emodulus(deform=defo, **{xk: area},
                                                **kw))
+            # temperature given globally or per event (known medium)
+            tkw = dict(kw, medium="CellCarrier", temperature=23.0,
+                       visc_model="buyukurganci-2022")
+            t_sc = np.atleast_1d(get_emodulus(deform=defo, **{xk: area},
+                                              **tkw))
+            t_ar = np.atleast_1d(get_emodulus(
+                deform=defo, **{xk: area},
+                **dict(tkw, temperature=np.full(len(pts), 23.0))))
     except BaseException as exc:
         return {"batch": pts, "par": par_}, [
             ("get_emodulus raises %s (%s route)" % (type(exc).__name__, name),
@@ -107,6 +128,11 @@ def _case(job):
                         "point %s: %r in batch vs %r alone" % (pts[i], g, s)))
     if not np.array_equal(got, again, equal_nan=True):
         out.append(("repeated call gives a different result", str(case)))
+    if not np.allclose(t_sc, t_ar, rtol=1e-12, atol=0, equal_nan=True):
+        out.append(("value depends on whether the temperature is given per "
+                    "event or globally (%s table)" % (
+                        "volume" if vol_axis else "area"),
+                    "%s: %r vs %r" % (case, t_sc, t_ar)))
     if not (np.array_equal(area, a0) and np.array_equal(defo, d0)):
         out.append(("the caller's arrays are modified", name))
     if name == "array+meta" and not np.array_equal(lut_data[0], lut_before):
@@ -126,11 +152,13 @@ def record(rng, lut_name):
     n = 12
     from dclab.features.emodulus.load import load_lut
     is3d = load_lut(lut_name)[1]["column features"][0] == "volume"
-    area = rs.uniform(30, 250, n)
-    vol = rs.uniform(200, 2500, n)
+    # the set-up differs from the table's (20 um) in two thirds of the calls
+    cw = rng.choice([20.0, 30.0, 40.0])
+    area = rs.uniform(30, 250, n) * (cw / 20.0) ** 2
+    vol = rs.uniform(200, 2500, n) * (cw / 20.0) ** 3
     defo = rs.uniform(0.005, 0.12, n)
-    base = dict(channel_width=20.0, flow_rate=0.04, px_um=0.0,
-                lut_data=lut_name)
+    base = dict(channel_width=cw, flow_rate=0.04 * (cw / 20.0) ** 3,
+                px_um=0.0, lut_data=lut_name)
     law = rng.choice(["double-visc", "double-flow", "rescale", "split",
                       "temperature-array", "repeat", "pixelation",
                       "pixelation-split"])
@@ -143,6 +171,7 @@ def record(rng, lut_name):
         return get_emodulus(deform=d.copy(), area_um=x.copy(), **k)
     x = vol if is3d else area
     rec = {"law": "equal", "kind": law, "lut": lut_name, "raised": False,
+           "channel_width": cw,
            "a": [], "b": [], "inputs_modified": False}
     x0, d0 = x.copy(), defo.copy()
     num = dict(medium=6.0, temperature=None, visc_model=None)
@@ -155,13 +184,14 @@ def record(rng, lut_name):
                 rec["law"] = "double"
             elif law == "double-flow":
                 a = call(defo, x, **num)
-                b = call(defo, x, flow_rate=0.08, **num)
+                b = call(defo, x, flow_rate=2 * base["flow_rate"], **num)
                 rec["law"] = "double"
             elif law == "rescale":
                 a = call(defo, x, **num)
                 s = 2.0
                 b = call(defo, x * (s ** 3 if is3d else s ** 2),
-                         channel_width=40.0, flow_rate=0.04 * s ** 3, **num)
+                         channel_width=s * cw,
+                         flow_rate=base["flow_rate"] * s ** 3, **num)
             elif law == "split":
                 a = call(defo, x, **num)
                 b = np.concatenate([call(defo[:5], x[:5], **num),
@@ -228,7 +258,7 @@ def main(tier, seed, replay=None):
         if k not in seen:
             seen.add(k)
             cases.append(c)
-    cases = par.sample(cases, 6 if q else 1, seed)
+    cases = par.sample(cases, 9 if q else 1, seed)
     root = tlc.scratch_dir("vp_c05_")
     try:
         routes(root)
